@@ -35,6 +35,16 @@ fn stag(t: IntTy) -> SignedNumType {
 }
 
 /// canonical programmatic literal of a value
+/// Variant names ending in `()` stand for tuple variants without fields (`enum E { Flush() }`, value
+/// `E::Flush()`), which Garble distinguishes from unit variants.
+fn vclean(n: &str) -> &str {
+    n.trim_end_matches("()")
+}
+
+fn is_empty_tuple_variant(n: &str) -> bool {
+    n.ends_with("()")
+}
+
 fn to_literal(v: &Val, t: &Ty, d: &Defs) -> Literal {
     match (v, t) {
         (Val::Bool(true), _) => Literal::True,
@@ -53,8 +63,8 @@ fn to_literal(v: &Val, t: &Ty, d: &Defs) -> Literal {
             let (vn, pts) = &ed.variants[*vi];
             Literal::Enum(
                 ed.name.clone(),
-                vn.clone(),
-                if pts.is_empty() { VariantLiteral::Unit } else { VariantLiteral::Tuple(payload.iter().zip(pts).map(|(p, t)| to_literal(p, t, d)).collect()) },
+                vclean(vn).to_string(),
+                if pts.is_empty() && !is_empty_tuple_variant(vn) { VariantLiteral::Unit } else { VariantLiteral::Tuple(payload.iter().zip(pts).map(|(p, t)| to_literal(p, t, d)).collect()) },
             )
         }
         _ => panic!("harness: value/type mismatch"),
@@ -102,11 +112,12 @@ fn den(l: &Literal, t: &Ty, d: &Defs) -> Option<Val> {
             if *name != ed.name {
                 return None;
             }
-            let vi = ed.variants.iter().position(|(n, _)| n == vn)?;
+            let vi = ed.variants.iter().position(|(n, _)| vclean(n) == vn)?;
             let pts = &ed.variants[vi].1;
+            let empty_tuple = is_empty_tuple_variant(&ed.variants[vi].0);
             match payload {
-                VariantLiteral::Unit if pts.is_empty() => Val::Enum(vi, vec![]),
-                VariantLiteral::Tuple(fs) if !pts.is_empty() && fs.len() == pts.len() => Val::Enum(vi, fs.iter().zip(pts).map(|(f, t)| den(f, t, d)).collect::<Option<Vec<_>>>()?),
+                VariantLiteral::Unit if pts.is_empty() && !empty_tuple => Val::Enum(vi, vec![]),
+                VariantLiteral::Tuple(fs) if (!pts.is_empty() || empty_tuple) && fs.len() == pts.len() => Val::Enum(vi, fs.iter().zip(pts).map(|(f, t)| den(f, t, d)).collect::<Option<Vec<_>>>()?),
                 _ => return None,
             }
         }
@@ -162,7 +173,9 @@ impl G<'_> {
                                 *first = self.prim(); // parser: first payload type must start with an identifier
                             }
                         }
-                        (format!("V{i}"), payload)
+                        // a variant without fields is sometimes declared as an empty tuple variant `V()`
+                        let name = if payload.is_empty() && self.rng.chance(1, 3) { format!("V{i}()") } else { format!("V{i}") };
+                        (name, payload)
                     })
                     .collect();
                 let name = format!("E{}", self.d.enums.len());
@@ -395,7 +408,7 @@ fn mutate_literal(rng: &mut Rng, l: &Literal, t: &Ty, d: &Defs) -> (Literal, &'s
         },
         (Literal::Enum(name, vn, payload), Ty::Enum(ei)) => {
             let ed = &d.enums[*ei];
-            let vi = ed.variants.iter().position(|(n, _)| n == vn).unwrap();
+            let vi = ed.variants.iter().position(|(n, _)| vclean(n) == vn).unwrap();
             match (rng.below(6), payload) {
                 (0, VariantLiteral::Tuple(fs)) => {
                     let mut fs = fs.clone();
@@ -404,7 +417,7 @@ fn mutate_literal(rng: &mut Rng, l: &Literal, t: &Ty, d: &Defs) -> (Literal, &'s
                 }
                 (1, VariantLiteral::Tuple(fs)) => {
                     let mut fs = fs.clone();
-                    fs.push(fs[0].clone());
+                    fs.push(fs.first().cloned().unwrap_or(Literal::True));
                     (Literal::Enum(name.clone(), vn.clone(), VariantLiteral::Tuple(fs)), "enum payload arity +1")
                 }
                 (0 | 1, VariantLiteral::Unit) => (Literal::Enum(name.clone(), vn.clone(), VariantLiteral::Tuple(vec![Literal::True])), "payload on a unit variant"),
